@@ -136,6 +136,20 @@ pub fn record(seed: u64, n: usize, cli: Option<&str>) -> Vec<J> {
             }
         }
     }
+    // the same tails under a literal whose lower 64 bits are themselves wider than a significand (bit 63 set, low bits set): a
+    // conversion that goes word by word rounds the low word first and the sum again
+    for k in 65u32..=120 {
+        let ulp: u128 = 1u128 << (k - 52);
+        let half = ulp >> 1;
+        for low in [0u128, 1] {
+            for tail in [half - 1, half + 1] {
+                let v: u128 = (1u128 << k) + (1u128 << 63) + low * ulp + tail;
+                for text in [format!("0x{:x}", v), format!("0b{:b}", v)] {
+                    out.push(json!({"ev":"lit","text":text,"cs":chars_json(&text),"parsed":literal_bits(&text)}));
+                }
+            }
+        }
+    }
     // hexadecimal digits that spell another prefix (0b.. inside 0x.., in both cases) and binary literals next to them
     for text in ["0x10b1", "0x0b11", "+0x0b1", "0x10b", "0xa0b2", "0xdead0beef", "0x0B", "0xb0b", "0b101", "0x0b_0b", "0xe1", "0x1e3", "0x0b0B0b", "-0x0b1"] {
         if text.len() > 2 { out.push(json!({"ev":"lit","text":text,"cs":chars_json(text.trim_start_matches('-')),"parsed":literal_bits(text)})); }
